@@ -86,8 +86,8 @@ def cases_for(tier):
 
 
 def run_config(args):
-    h, cname, cbytes_fn, cases, idx = args
-    w = os.path.join(BUILD, 'run-C01', 'w%d' % idx)
+    h, cname, cbytes_fn, cases, idx, root = args
+    w = os.path.join(root, 'w%d' % idx)
     cb = cbytes_fn(w)[cname]
     lines = ['sinks pipe', 'cfgnone' if cb is None else 'cfg ' + H.hx(cb)]
     cur_env = None
@@ -135,7 +135,7 @@ def run(ck):
     v = H.build_exec_harness('c01-ts-asan')
     cases = cases_for(ck.tier)
     cfgnames = list(configs('/x').keys())
-    jobs = [(v['h_exec'], c, configs, cases, i) for i, c in enumerate(cfgnames)]
+    jobs = [(v['h_exec'], c, configs, cases, i, ck.workdir) for i, c in enumerate(cfgnames)]
     results = pmap(run_config, jobs)
     evals = 0
     outcomes_seen = set()
